@@ -110,8 +110,9 @@ def JoinTranslate : Prop :=
     LineJoin.fromPoints (start + d) (mid + d) (stop + d) w off =
       (LineJoin.fromPoints start mid stop w off).map (·.translate d)
 
-/-- `LineJoin::from_points` moves with its points: same kind, corners moved by `d` (guard: no
-saturating cast in the two intersections of this join). -/
+/-- `LineJoin::from_points` moves with its points: same kind, corners moved by `d`. Guard
+`JoinNoSat`: each of the two rounded intersection points of this join is either discarded
+(`nearly_colinear_has_error`) or its `i32` casts do not saturate, before and after the move. -/
 theorem join_from_points_translate_partial (start mid stop : Pt) (w : Nat) (off : Thick.StrokeOffset)
     (d : Pt) (h : JoinNoSat start mid stop w off d) :
     LineJoin.fromPoints (start + d) (mid + d) (stop + d) w off =
@@ -125,6 +126,8 @@ theorem join_kind_translate_partial (start mid stop : Pt) (w : Nat) (off : Thick
       (LineJoin.fromPoints start mid stop w off).map (·.kind) :=
   fromPoints_kind_translate start mid stop w off d h
 
+-- nearly parallel long segments: both rounded points are discarded (`nearly_colinear_has_error`), so the guard holds whatever they are
+example : JoinNoSat ⟨0, 0⟩ ⟨100000, 1⟩ ⟨200000, 3⟩ 3 .none ⟨-7, 5⟩ := by decide
 -- the former C07 witness (polyline (0,0),(-6,-6),(-5,3), width 4, moved by (-3,4)) satisfies the guard
 example : JoinNoSat ⟨0, 0⟩ ⟨-6, -6⟩ ⟨-5, 3⟩ 4 .none ⟨-3, 4⟩ := by decide
 example : (LineJoin.fromPoints ⟨0, 0⟩ ⟨-6, -6⟩ ⟨-5, 3⟩ 4 .none).map (·.kind) = some .miter := by decide
@@ -254,6 +257,6 @@ theorem triangle_pixels_translate_partial (t : Tri) (style : TriStyle) (d : Pt)
 -- the former C07 witness (triangle (-5,-4),(-5,-1),(-1,-4), width 3, Center, moved by (-7,-9)) satisfies the guards
 example : TriGuards ⟨⟨-5, -4⟩, ⟨-5, -1⟩, ⟨-1, -4⟩⟩ ⟨some 2, some 1, 3, .center⟩ ⟨-7, -9⟩ := by decide
 
--- [V] the guards (PolyNoSat, BoxGuard, RowsGuard, TriGuards: no saturating i32 cast, corners are i32 values) hold for all display-scale inputs: carried by correspondence + oracle only
+-- [V] the guards (PolyNoSat, BoxGuard, RowsGuard, TriGuards: no saturating i32 cast in a USED intersection point, box corners are i32 values, rows() does not saturate) hold for all display-scale inputs: carried by correspondence + oracle only
 
 end EG.C07.Joins
